@@ -92,7 +92,7 @@ const lex_en_main int = 89
 
 type lexer struct {
 	data     string
-	p, pe, m int
+	p, pe, m, depth int
 	id, mid  string
 }
 
